@@ -269,6 +269,39 @@ def spec_rates(dims, t1, t2):
     return out
 
 
+def restrict(T, targets, N):
+    """the times that act when a RelaxationNoise is restricted to `targets`: every targeted subsystem keeps ITS OWN entry,
+    the others get none"""
+    if targets is None:
+        return T
+    l = T if isinstance(T, list) else [T] * N
+    return [l[q] if q in targets else None for q in range(N)]
+
+
+def good_targets(targets, N):
+    return targets is None or (all(isinstance(q, int) and 0 <= q < N for q in targets) and len(set(targets)) == len(targets))
+
+
+def random_targets(rng, N, strict=True):
+    """an explicit targets list; strict: not the ordered prefix 0,1,..,k-1 (single target != 0, subsets, reversed order)"""
+    for _ in range(50):
+        tg = rng.sample(range(N), rng.randint(1, N))
+        if not strict or tg != list(range(len(tg))):
+            return tg
+    return [N - 1]
+
+
+def make_processor(dims, t1, t2, targets=None):
+    """idle processor with relaxation: Processor(t1=, t2=) or, with explicit targets, Processor + add_noise(RelaxationNoise)"""
+    _, noise, Processor = _impl()
+    N = len(dims)
+    if targets is None:
+        return Processor(N, dims=list(dims), t1=py_T(t1), t2=py_T(t2))
+    p = Processor(N, dims=list(dims))
+    p.add_noise(noise.RelaxationNoise(py_T(t1), py_T(t2), list(targets)))
+    return p
+
+
 def initial_state(kind, dims, seed):
     """density matrix of the register: 'plus' | 'product' (random mixed factors) | 'entangled' (random mixed, full rank
     mixture of two random pure joint states) | 'ghz' ((|0..0> + |1..1>)/sqrt2)"""
@@ -346,16 +379,18 @@ def tidyup_guard(rates):
     return (qutip.CoreOptions(auto_tidyup=False), True) if small else (contextlib.nullcontext(), False)
 
 
-def mesolve_states(dims, t1, t2, rho0, times):
-    """the implementation: idle Processor with t1/t2 -> get_qobjevo(noisy=True) -> qutip.mesolve"""
+def mesolve_states(dims, t1, t2, rho0, times, targets=None):
+    """the implementation: idle Processor with t1/t2 (or Processor + add_noise(RelaxationNoise(t1, t2, targets))) ->
+    get_qobjevo(noisy=True) -> qutip.mesolve"""
     qutip, _, Processor = _impl()
     N = len(dims)
-    guard, _ = tidyup_guard([x for pr in spec_rates(dims, t1, t2) for x in pr])
+    r1, r2 = restrict(t1, targets, N), restrict(t2, targets, N)
+    guard, _ = tidyup_guard([x for pr in spec_rates(dims, r1, r2) for x in pr])
     with guard:
-        p = Processor(N, dims=list(dims), t1=py_T(t1), t2=py_T(t2))
+        p = make_processor(dims, t1, t2, targets)
         H, c_ops = p.get_qobjevo(noisy=True)
         r0 = qutip.Qobj(rho0, dims=[list(dims), list(dims)])
-        r = qutip.mesolve(H, r0, times, c_ops=c_ops, options=solver_options(dims, t1, t2))
+        r = qutip.mesolve(H, r0, times, c_ops=c_ops, options=solver_options(dims, r1, r2))
     return [(st if st.isoper else qutip.ket2dm(st)).full() for st in r.states]
 
 
@@ -527,6 +562,8 @@ class C15(PropertyCheck):
             "malformed stream = non-positive scalars, wrong-length lists, non-positive list entries, out-of-range targets; "
             "solution cases = (dims, relation, argument shape, initial state in {|+..+>, random mixed product, random entangled "
             "mixed, GHZ}) with mesolve's rho(t) at 4 times against the explicit solution with the model's prefactors; the "
+            "explicit targets = every ordered non-empty subset of the subsystems with per-subsystem lists, RelaxationNoise used "
+            "directly and via Processor.add_noise (oracle kind 'targets': one object, repeated uses, other processor sizes); the "
             "property oracle additionally replays histories (one processor, 0-2 extra noise objects, 1-3 requests)")
 
     # ---------------------------------------------------------------------------------
@@ -548,6 +585,10 @@ class C15(PropertyCheck):
         v = valid_times(dims, t1, t2) if via != "noise" or targets is None else None
         if not device:
             wit = None
+        elif via == "noise" and targets is not None:
+            ok = valid_times(dims, t1, t2) is True and good_targets(targets, len(dims)) and len(targets) > 0
+            wit = {"kind": "targets", "t1": json_T(t1), "t2": json_T(t2), "targets": list(targets),
+                   "uses": [["direct", dims], ["processor", dims]]} if ok else None
         elif specs:
             # the same processor asked twice, as the Processor entry point of this correspondence does
             srcs_ok = v is True and all(valid_times(dims, sp[1], sp[2]) is True for sp in specs if sp[0] == "R")
@@ -601,15 +642,18 @@ class C15(PropertyCheck):
                 res.disagree(inp, model, str(impl_str), f"squared prefactor {ic!r} vs exact {mr} = {float(mr)!r}", wit)
                 return
 
-    def _solution_case(self, ctx, res, dims, t1, t2, kind, seed, tags=()):
+    def _solution_case(self, ctx, res, dims, t1, t2, kind, seed, tags=(), targets=None):
         """mesolve on the implementation's (H, c_ops) against the explicit solution (Lean: relaxSol2 / relaxSol3 / regSol)
         evaluated with the MODEL's squared prefactors, for an arbitrary initial density matrix, at 4 times"""
-        line = f"relax fixed=1 dims={','.join(map(str, dims))} t1={enc_T(t1)} t2={enc_T(t2)} targets=none"
+        line = f"relax fixed=1 dims={','.join(map(str, dims))} t1={enc_T(t1)} t2={enc_T(t2)} targets={enc_targets(targets)}"
         model = ctx.driver("drv_noise").run([line])[0]
         mst, mels = parse_model(model)
         inp = {"via": "solution", "dims": dims, "t1": json_T(t1), "t2": json_T(t2), "state": kind, "seed": seed}
-        res.case(inp, nontrivial=True, tags=list(tags) + ["solution", f"state={kind}", f"N={len(dims)}", "verdict=" + mst])
         wit = {"kind": "solution", "dims": dims, "t1": json_T(t1), "t2": json_T(t2), "state": kind, "seed": seed}
+        if targets is not None:
+            inp["targets"] = wit["targets"] = list(targets)
+        res.case(inp, nontrivial=True, tags=list(tags) + ["solution", f"state={kind}", f"N={len(dims)}", "verdict=" + mst]
+                 + (["explicit-targets"] if targets is not None else []))
         if mst != "ok":
             res.disagree(inp, model, "valid times (generated inside the property's class)", "model rejects valid times", wit)
             return
@@ -620,11 +664,11 @@ class C15(PropertyCheck):
                 return
             rates[tg[0]][0 if kd == "destroy" else 1] += float(r)
         rho0 = initial_state(kind, dims, seed)
-        times = time_grid(dims, t1, t2)
+        times = time_grid(dims, restrict(t1, targets, len(dims)), restrict(t2, targets, len(dims)))
         with warnings.catch_warnings():
             warnings.simplefilter("ignore")
             try:
-                states = mesolve_states(dims, t1, t2, rho0, times)
+                states = mesolve_states(dims, t1, t2, rho0, times, targets)
             except Exception as e:  # canonicalised
                 res.disagree(inp, model, "err " + classify_exc(e), "the implementation's master equation cannot be set up / integrated", wit)
                 return
@@ -684,6 +728,35 @@ class C15(PropertyCheck):
                          "argument shape, mesolve's rho(t) at 4 times from |+..+>, a random mixed product state, a random "
                          "entangled mixed state or a GHZ-like state against the explicit solution proved in Lean, evaluated "
                          f"with the model's squared prefactors (max-entry tolerance {SOL_TOL:g})")
+        # explicit targets: every ordered non-empty subset of the subsystems (single target != 0, subsets, reversed order,
+        # ...) with per-subsystem lists whose entries differ by decades; the RelaxationNoise is used directly and added to a
+        # Processor (add_noise); then mesolve from such processors against the explicit solution
+        k = 0
+        for dims in [d for d in all_dims if len(d) >= 2]:
+            N = len(dims)
+            for r in range(1, N + 1):
+                for tg in itertools.permutations(range(N), r):
+                    k += 1
+                    rel = ("inside", "near", "boundary", "inside")[k % 4]
+                    ps = [pair(rng, rel) for _ in range(N)]
+                    l1, l2 = [x[0] for x in ps], [x[1] for x in ps]
+                    if k % 5 == 0:
+                        l2 = [None if rng.random() < 0.4 else x for x in l2]
+                    if k % 2:
+                        self._compare(ctx, res, "noise", dims, l1, l2, targets=list(tg), tags=["systematic", "explicit-targets"])
+                    else:
+                        self._compare(ctx, res, "processor", dims, None, None, specs=[("R", l1, l2, list(tg))],
+                                      tags=["systematic", "explicit-targets", "add_noise"])
+        for dims in [d for d in sol_dims if len(d) >= 2]:
+            for rel in ("inside", "boundary"):
+                k += 1
+                ps = [pair(rng, rel) for _ in range(len(dims))]
+                self._solution_case(ctx, res, dims, [x[0] for x in ps], [x[1] for x in ps],
+                                    ("product", "entangled", "ghz", "plus")[k % 4], rng.randint(0, 10 ** 6),
+                                    tags=["systematic", f"rel={rel}"], targets=random_targets(rng, len(dims)))
+        res.notes.append("explicit targets: all ordered non-empty subsets of the subsystems (N = 2, 3) with per-subsystem t1/t2 lists "
+                         "of independent magnitudes, RelaxationNoise used directly and via Processor.add_noise; mesolve from "
+                         "such processors against the explicit solution (untargeted subsystems must not decay)")
         # random: explicit targets, additional noise objects, device_noise off
         for t in range(600 if ctx.thorough else 150):
             dims = rng.choice(all_dims)
@@ -699,7 +772,11 @@ class C15(PropertyCheck):
                 for _ in range(rng.randint(1, 3)):
                     k = rng.choice("RDC")
                     if k == "R":
-                        a, b = pair(rng, rng.choice(["inside", "boundary"]))
+                        if rng.random() < 0.5:
+                            qs = [pair(rng, rng.choice(["inside", "boundary"])) for _ in range(N)]
+                            a, b = [x[0] for x in qs], [x[1] for x in qs]
+                        else:
+                            a, b = pair(rng, rng.choice(["inside", "boundary"]))
                         specs.append(("R", rng.choice([a, None]), b, rng.choice([None, rng.sample(range(N), rng.randint(1, N))])))
                     elif k == "D":
                         allq = rng.random() < 0.5 and all(d == 2 for d in dims)
@@ -758,12 +835,17 @@ class C15(PropertyCheck):
                 return self._history(ctx, w)
             if kind == "solution":
                 return self._solution(ctx, w)
+            if kind == "targets":
+                return self._targets(ctx, w)
             dims = w["dims"]
             N = len(dims)
             t1, t2 = unjson_T(w["t1"]), unjson_T(w["t2"])
+            tgs = w.get("targets")
             v = valid_times(dims, t1, t2)
+            if tgs is not None and not (good_targets(tgs, N) and v is True):
+                return False, "explicit targets with invalid times / targets: outside the property's class"
             try:
-                p = Processor(N, dims=list(dims), t1=py_T(t1), t2=py_T(t2))
+                p = make_processor(dims, t1, t2, tgs)
                 H, c_ops = p.get_qobjevo(noisy=True)
                 raised = None
             except Exception as e:
@@ -776,6 +858,8 @@ class C15(PropertyCheck):
                 return False, "non-positive list entry: outside the property's statement"
             if raised is not None:
                 return True, f"valid relaxation times rejected: {type(raised).__name__}: {raised}"
+            # with explicit targets every targeted subsystem decays with ITS OWN times, the others not at all
+            t1, t2 = restrict(t1, tgs, N), restrict(t2, tgs, N)
             l1 = t1 if isinstance(t1, list) else [t1] * N
             l2 = t2 if isinstance(t2, list) else [t2] * N
             # times scaled to every relaxation time of the register (not only the shortest one)
@@ -786,7 +870,7 @@ class C15(PropertyCheck):
             try:
                 with guard:
                     if off:
-                        H, c_ops = Processor(N, dims=list(dims), t1=py_T(t1), t2=py_T(t2)).get_qobjevo(noisy=True)
+                        H, c_ops = make_processor(dims, unjson_T(w["t1"]), unjson_T(w["t2"]), tgs).get_qobjevo(noisy=True)
                     r = qutip.mesolve(H, rho0, times, c_ops=c_ops, options=solver_options(dims, t1, t2))
             except Exception as e:
                 return True, f"the master equation of the returned (H, c_ops) cannot be integrated: {type(e).__name__}: {str(e)[:80]}"
@@ -805,15 +889,17 @@ class C15(PropertyCheck):
         qutip = _impl()[0]
         dims = list(w["dims"])
         t1, t2 = unjson_T(w["t1"]), unjson_T(w["t2"])
-        if valid_times(dims, t1, t2) is not True:
-            return False, "not valid relaxation times: outside the property's class"
+        tgs = w.get("targets")
+        if valid_times(dims, t1, t2) is not True or not good_targets(tgs, len(dims)):
+            return False, "not valid relaxation times / targets: outside the property's class"
+        r1, r2 = restrict(t1, tgs, len(dims)), restrict(t2, tgs, len(dims))
         rho0 = initial_state(w.get("state", "plus"), dims, int(w.get("seed", 0)))
-        times = time_grid(dims, t1, t2)
+        times = time_grid(dims, r1, r2)
         try:
-            states = mesolve_states(dims, t1, t2, rho0, times)
+            states = mesolve_states(dims, t1, t2, rho0, times, tgs)
         except Exception as e:
             return True, f"valid relaxation times: set-up / integration raised {type(e).__name__}: {str(e)[:100]}"
-        rates = spec_rates(dims, t1, t2)
+        rates = spec_rates(dims, r1, r2)
         for t, st in zip(times, states):
             bad = self._physical_state(qutip.Qobj(st, dims=[dims, dims]))
             if bad:
@@ -826,14 +912,98 @@ class C15(PropertyCheck):
                               f"{exp[i, j]:.9f} (initial state: {w.get('state', 'plus')})")
         return False, f"mesolve's rho(t) equals the explicit solution at {len(times)} times (<= {SOL_TOL:g}) and is physical"
 
+    def _targets(self, ctx, w):
+        """ONE RelaxationNoise(t1, t2, targets) object, used directly (get_noisy_pulses(dims)) and added to processors
+        (Processor.add_noise), possibly of different sizes, one use after the other: at every use exactly the targeted
+        subsystems get Lindblad operators, in target order, each with the rates of ITS OWN t1/t2 entry."""
+        qutip, noise, Processor = _impl()
+        t1, t2 = unjson_T(w["t1"]), unjson_T(w["t2"])
+        tgs = list(w["targets"])
+        uses = [(u[0], list(u[1])) for u in w["uses"]]
+        for _, dims in uses:
+            if valid_times(dims, t1, t2) is not True or not good_targets(tgs, len(dims)):
+                return False, "invalid times / targets for one of the uses: outside the property's class"
+        try:
+            nz = noise.RelaxationNoise(py_T(t1), py_T(t2), list(tgs))
+        except Exception as e:
+            return True, f"valid RelaxationNoise raised {type(e).__name__}: {str(e)[:100]}"
+        for k, (how, dims) in enumerate(uses + uses[:1], 1):
+            N = len(dims)
+            rates = spec_rates(dims, t1, t2)
+            l2 = t2 if isinstance(t2, list) else [t2] * N
+            l1 = t1 if isinstance(t1, list) else [t1] * N
+            expected = []
+            for q in tgs:
+                if l1[q] is not None:
+                    expected.append((q, "destroy", rates[q][0], 0.0))
+                if l2[q] is not None and rates[q][1] != 0.0:
+                    expected.append((q, "num", rates[q][1], 2 / float(l2[q])))
+            try:
+                if how == "direct":
+                    els = nz.get_noisy_pulses(dims=list(dims), pulses=[])[1].lindblad_noise
+                else:
+                    p = Processor(N, dims=list(dims))
+                    p.add_noise(nz)
+                    els = p.get_noisy_pulses(device_noise=True)[-1].lindblad_noise
+                    _, c_ops = p.get_qobjevo(noisy=True)
+                    if len(c_ops) != len(els):
+                        return True, f"use {k} ({how}, dims {dims}): {len(c_ops)} collapse operators for {len(els)} Lindblad elements"
+                got = [canon_element(e, []) for e in els]
+            except Exception as e:
+                return True, f"use {k} ({how}, dims {dims}) of a valid RelaxationNoise raised {type(e).__name__}: {str(e)[:100]}"
+            if len(got) != len(expected):
+                return True, f"use {k} ({how}, dims {dims}): {len(got)} Lindblad operators, specified {len(expected)}"
+            for (tg, kd, d, c, probs), (q, ekd, rate, band) in zip(got, expected):
+                if probs:
+                    return True, f"use {k} ({how}, dims {dims}): {probs[0]}"
+                if tg != [q] or kd != ekd or d != dims[q]:
+                    return True, (f"use {k} ({how}, dims {dims}): operator {kd} (dim {d}) on {tg}, specified {ekd} "
+                                  f"(dim {dims[q]}) on [{q}]")
+                if c == "nan" or abs(c - rate) > 1e-9 * (rate + band):
+                    own = f"t1[{q}] = {l1[q]}, t2[{q}] = {l2[q]}"
+                    return True, (f"use {k} ({how}, dims {dims}): {kd} on subsystem {q} has squared prefactor {c:.9g}, its own "
+                                  f"times ({own}) specify {rate:.9g}")
+        return False, f"{len(uses) + 1} uses: the targeted subsystems get their own rates, in target order"
+
+    def _targets_witness(self, rng):
+        if rng.random() < 0.7:
+            # per-subsystem lists (fixed size), entries of independent magnitudes
+            dims = [rng.choice([2, 2, 3]) for _ in range(rng.randint(2, 3))]
+            ps = [pair(rng, rng.choice(["inside", "inside", "boundary", "near"])) for _ in dims]
+            t1, t2 = [x[0] for x in ps], [x[1] for x in ps]
+            if rng.random() < 0.3:
+                t2 = [None if rng.random() < 0.4 else x for x in t2]
+            tgs = random_targets(rng, len(dims))
+            uses = [[rng.choice(["direct", "processor"]), dims] for _ in range(rng.randint(1, 3))]
+        else:
+            # scalars: the same object serves processors of other sizes
+            t1, t2 = pair(rng, rng.choice(["inside", "boundary", "near"]))
+            t1, t2 = rng.choice([(t1, t2), (t1, None), (None, t2)])
+            tgs = random_targets(rng, 2)
+            uses = [[rng.choice(["direct", "processor"]), [rng.choice([2, 3]) for _ in range(rng.randint(2, 4))]]
+                    for _ in range(rng.randint(2, 3))]
+        return {"kind": "targets", "t1": json_T(t1), "t2": json_T(t2), "targets": tgs, "uses": uses}
+
+    def _with_targets(self, rng, w):
+        """turn a decay / solution witness into one with per-subsystem lists and an explicit targets list"""
+        dims = w["dims"]
+        N = len(dims)
+        if N < 2:
+            return w
+        ps = [pair(rng, rng.choice(["inside", "inside", "boundary", "near"])) for _ in range(N)]
+        w["t1"], w["t2"] = json_T([x[0] for x in ps]), json_T([x[1] for x in ps])
+        w["targets"] = random_targets(rng, N)
+        return w
+
     def _solution_witness(self, rng):
         w = self._decay_witness(rng)
         while int(np.prod(w["dims"])) > 12:
             w = self._decay_witness(rng)
+        w.pop("targets", None)
         w["kind"] = "solution"
         w["state"] = rng.choice(["plus", "product", "entangled", "ghz"])
         w["seed"] = rng.randint(0, 10 ** 6)
-        return w
+        return self._with_targets(rng, w) if rng.random() < 0.35 else w
 
     def _decay_check(self, dims, times, states, g1, g2, tol=2e-6):
         """every subsystem of the product of (|0>+|1>)/sqrt2: rho11 = exp(-g1 t)/2, |rho01| = exp(-g2 t)/2"""
@@ -1015,7 +1185,8 @@ class C15(PropertyCheck):
             t1, t2 = None, ps[0][1]
         else:
             t1, t2 = [p[0] for p in ps], [p[1] for p in ps]
-        return {"kind": "decay", "dims": dims, "t1": json_T(t1), "t2": json_T(t2)}
+        w = {"kind": "decay", "dims": dims, "t1": json_T(t1), "t2": json_T(t2)}
+        return self._with_targets(rng, w) if rng.random() < 0.3 else w
 
     def _reject_witness(self, rng):
         dims = [rng.choice([2, 3]) for _ in range(rng.randint(1, 3))]
@@ -1054,8 +1225,12 @@ class C15(PropertyCheck):
             if k == "D" and two:
                 specs.append(("D", 1, [rng.choice(two)], False))
             elif k == "R":
-                a, b = pair(rng, rng.choice(["inside", "boundary"]), mag)
-                specs.append(("R", rng.choice([a, None]), b, sorted(rng.sample(range(N), rng.randint(1, N)))))
+                if rng.random() < 0.5:
+                    qs = [pair(rng, rng.choice(["inside", "boundary"]), mag) for _ in range(N)]
+                    a, b = [x[0] for x in qs], [x[1] for x in qs]
+                else:
+                    a, b = pair(rng, rng.choice(["inside", "boundary"]), mag)
+                specs.append(("R", rng.choice([a, None]), b, rng.sample(range(N), rng.randint(1, N))))
             else:
                 specs.append(("C",))
         calls = [rng.choice(["qobjevo", "pulses", "run"]) for _ in range(rng.randint(1, 3))]
@@ -1083,6 +1258,17 @@ class C15(PropertyCheck):
                   "state": "entangled", "seed": 7},
                  {"kind": "history", "dims": [2], "t1": "2000000000", "t2": "1000000000", "noises": [], "calls": ["pulses", "qobjevo"],
                   "drive": False},
+                 {"kind": "targets", "t1": ["1", "3", "7/10"], "t2": ["2/5", "5/2", "11/10"], "targets": [2, 1],
+                  "uses": [["direct", [2, 2, 2]], ["processor", [2, 2, 2]]]},
+                 {"kind": "targets", "t1": ["1", "3", "7/10"], "t2": None, "targets": [2],
+                  "uses": [["processor", [2, 3, 2]], ["direct", [2, 3, 2]]]},
+                 {"kind": "targets", "t1": "2", "t2": "3", "targets": [1, 0],
+                  "uses": [["processor", [2, 2]], ["direct", [2, 3, 2]], ["processor", [3, 2, 2, 2]]]},
+                 {"kind": "decay", "dims": [2, 2, 2], "t1": ["1", "3", "7/10"], "t2": ["2/5", "5/2", "11/10"], "targets": [2, 1]},
+                 {"kind": "solution", "dims": [2, 2, 2], "t1": ["1", "3", "7/10"], "t2": ["2/5", "5/2", "11/10"], "targets": [2, 1],
+                  "state": "entangled", "seed": 9},
+                 {"kind": "history", "dims": [2, 2, 2], "t1": None, "t2": None,
+                  "noises": [["R", ["1", "3", "7/10"], ["2/5", "5/2", "11/10"], [2, 1]]], "calls": ["run", "pulses"], "drive": False},
                  {"kind": "solution", "dims": [2], "t1": "1", "t2": "2", "state": "entangled", "seed": 1},
                  {"kind": "solution", "dims": [2], "t1": "1", "t2": "3/2", "state": "entangled", "seed": 2},
                  {"kind": "solution", "dims": [3], "t1": "2", "t2": "1", "state": "entangled", "seed": 3},
@@ -1103,7 +1289,7 @@ class C15(PropertyCheck):
                 yield w, d
         while time.time() - t0 < budget_s:
             w = ctx.rng.choice([self._decay_witness, self._solution_witness, self._history_witness, self._history_witness,
-                                self._reject_witness, self._physical_witness])(ctx.rng)
+                                self._targets_witness, self._reject_witness, self._physical_witness])(ctx.rng)
             try:
                 f, d = self.oracle_replay(ctx, w)
             except Exception as e:
@@ -1116,6 +1302,11 @@ class C15(PropertyCheck):
               {"kind": "decay", "dims": [2], "t1": "2000000000", "t2": "1000000000"},
               {"kind": "solution", "dims": [2, 2], "t1": ["1", "100000000"], "t2": ["1", "100000000"], "state": "ghz", "seed": 8}]
         ws += [self._decay_witness(ctx.rng) for _ in range(12 if ctx.thorough else 5)]
+        ws += [{"kind": "targets", "t1": ["1", "3", "7/10"], "t2": ["2/5", "5/2", "11/10"], "targets": [2, 1],
+                "uses": [["direct", [2, 2, 2]], ["processor", [2, 2, 2]]]},
+               {"kind": "solution", "dims": [2, 2, 2], "t1": ["1", "3", "7/10"], "t2": ["2/5", "5/2", "11/10"], "targets": [2, 1],
+                "state": "entangled", "seed": 9}]
+        ws += [self._targets_witness(ctx.rng) for _ in range(12 if ctx.thorough else 5)]
         ws += [{"kind": "solution", "dims": [2, 2], "t1": ["1", "2"], "t2": ["2", "1"], "state": "ghz", "seed": 4}]
         ws += [self._solution_witness(ctx.rng) for _ in range(12 if ctx.thorough else 5)]
         ws += [self._reject_witness(ctx.rng) for _ in range(12 if ctx.thorough else 6)]
